@@ -6,22 +6,25 @@ package fat2
 // Contracts for the verification machinery in /verif (govc). Comment-only file:
 // it adds no executable code and is compiled only with the build tag `verif`.
 
-//@ props C03 C04 C20 C13
+//@ props C20
 //@
 //@ spec func sumAmt(xs []AddressAmountTuple, n int) int = n <= 0 ? 0 : sumAmt(xs, n - 1) + xs[n - 1].Amount
 //@ spec func isConv(t *Transaction) bool = len(t.Transfers) == 0 && PTickerInvalid < t.Conversion && t.Conversion < PTickerMax
 //@
 //@ func (*Transaction).IsConversion
+//@   props C03 C13 C20
 //@   ensures @def result <==> isConv(t)
 //@   modifies nothing
 //@
 //@ func (*Transaction).IsPEGRequest
+//@   props C16 C20
 //@   ensures @def result <==> (len(t.Transfers) == 0 && t.Conversion == PTickerPEG)
 //@   modifies nothing
 //@
 //@ spec func tickerOrInvalid(x int) bool = PTickerInvalid <= x && x < PTickerMax
 //@
 //@ func (*Transaction).Validate
+//@   props C03 C04 C20
 //@   arith checked
 //@   requires @ticker_range tickerOrInvalid(t.Conversion)
 //@   ensures @input err == nil ==> t.Input.Address != coinbase
@@ -45,6 +48,7 @@ package fat2
 //@     && (forall i int, j int :: 0 <= i && i < len(t.Transactions) && 0 <= j && j < len(t.Transactions) ==> t.Transactions[i].Input.Address == t.Transactions[j].Input.Address)
 //@
 //@ func (*TransactionBatch).ValidData
+//@   props C03 C05 C20
 //@   requires @ticker_range tickersInRange(t.Transactions)
 //@   ensures @version err == nil ==> t.Version == 1 && len(t.Transactions) >= 1
 //@   ensures @each_valid err == nil ==> (forall k int :: 0 <= k && k < len(t.Transactions) ==> txOK(t.Transactions, k))
@@ -60,6 +64,7 @@ package fat2
 //@     exists S set[factom.Bytes32] :: sigOK(e, S, flag) && (forall k int :: 0 <= k && k < len(xs) ==> S[xs[k].Input.Address])
 //@
 //@ func (TransactionBatch).ValidExtIDs
+//@   props C05
 //@   ensures @signed err == nil ==> signedBy(t.Entry, t.Transactions, flagFor(height))
 //@   canary @signed_other_flag err == nil ==> signedBy(t.Entry, t.Transactions, 7)
 //@   modifies nothing
@@ -70,12 +75,14 @@ package fat2
 //@ spec func validatedAt(t *TransactionBatch, h int) bool = dataOK(t) && signedBy(t.Entry, t.Transactions, flagFor(h)) && amountsFit(t.Transactions)
 //@
 //@ func (*TransactionBatch).Validate
+//@   props C05 C03 C20
 //@   requires @ticker_range tickersInRange(t.Transactions)
 //@   ensures @validated err == nil ==> validatedAt(t, height)
 //@   modifies nothing
 //@   loop 1 invariant @fit_prefix 0 <= iter && iter <= len(t.Transactions) && (forall k int :: 0 <= k && k < iter ==> t.Transactions[k].Input.Amount <= MaxInt64)
 //@
 //@ func (*TransactionBatch).ValidatePegTx
+//@   props C13
 //@   requires @ticker_range tickersInRange(t.Transactions)
 //@   ensures @data err == nil ==> dataOK(t)
 //@   ensures @no_peg err == nil ==> (forall k int :: 0 <= k && k < len(t.Transactions) ==> t.Transactions[k].Conversion != PTickerPEG)
@@ -83,22 +90,26 @@ package fat2
 //@   loop 1 invariant @nopeg_prefix 0 <= iter && iter <= len(t.Transactions) && (forall k int :: 0 <= k && k < iter ==> t.Transactions[k].Conversion != PTickerPEG)
 //@
 //@ func (*TransactionBatch).HasConversions
+//@   props C07 C13
 //@   ensures @def result <==> (exists k int :: 0 <= k && k < len(t.Transactions) && isConv(t.Transactions[k]))
 //@   modifies nothing
 //@   loop 1 invariant @none_prefix 0 <= iter && iter <= len(t.Transactions) && (forall k int :: 0 <= k && k < iter ==> !isConv(t.Transactions[k]))
 //@
 //@ func (*TransactionBatch).HasPEGRequest
+//@   props C16
 //@   ensures @def result <==> (exists k int :: 0 <= k && k < len(t.Transactions) && len(t.Transactions[k].Transfers) == 0 && t.Transactions[k].Conversion == PTickerPEG)
 //@   modifies nothing
 //@   loop 1 invariant @none_prefix 0 <= iter && iter <= len(t.Transactions) && (forall k int :: 0 <= k && k < iter ==> !(len(t.Transactions[k].Transfers) == 0 && t.Transactions[k].Conversion == PTickerPEG))
 //@
 //@ // JSON decoding is outside the verified subset (encoding/json): assumed contract.
 //@ func (*TransactionBatch).UnmarshalJSON
+//@   props C20
 //@   trusted
 //@   modifies t.Version, t.Transactions, t.Metadata
 //@   ensures result == nil ==> tickersInRange(t.Transactions)
 //@
 //@ func NewTransactionBatch
+//@   props C05 C08 C20
 //@   ensures @validated err == nil ==> result != nil && validatedAt(result, height) && result.Entry == entry
 //@   ensures @nil_on_error err != nil ==> result == nil
 //@   modifies nothing
